@@ -104,6 +104,8 @@ pub struct VhostUserHandler<T: VhostUserBackend> {
     #[cfg(feature = "postcopy")]
     uffd: Option<Uffd>,
     worker_threads: Vec<thread::JoinHandle<VringEpollResult<()>>>,
+    // Dirty log shared memory set by SET_LOG_BASE, if any.
+    logmem: Option<Arc<MmapLogReg>>,
 }
 
 // Ensure VhostUserHandler: Clone + Send + Sync + 'static.
@@ -165,6 +167,7 @@ where
             #[cfg(feature = "postcopy")]
             uffd: None,
             worker_threads,
+            logmem: None,
         })
     }
 }
@@ -251,6 +254,32 @@ where
         } else {
             Err(VhostUserError::InactiveFeature(feat))
         }
+    }
+}
+
+impl<T: VhostUserBackend> VhostUserHandler<T>
+where
+    T::Bitmap: BitmapReplace,
+{
+    /// If dirty page logging has been set up by SET_LOG_BASE, keep it in force for `mem`, which is
+    /// about to replace the current guest memory: (re)create the bitmap of every region on top of
+    /// the log, since regions created by a memory table update start without one.
+    fn enable_logging(&self, mem: &GuestMemoryMmap<T::Bitmap>) -> VhostUserResult<()> {
+        if let Some(logmem) = &self.logmem {
+            let mut bitmaps = Vec::new();
+            for region in mem.iter() {
+                let bitmap = <<T as VhostUserBackend>::Bitmap as BitmapReplace>::InnerBitmap::new(
+                    region,
+                    Arc::clone(logmem),
+                )
+                .map_err(VhostUserError::ReqHandlerError)?;
+                bitmaps.push((region, bitmap));
+            }
+            for (region, bitmap) in bitmaps {
+                (*region).bitmap().replace(bitmap);
+            }
+        }
+        Ok(())
     }
 }
 
@@ -355,6 +384,7 @@ where
 
         let mem = GuestMemoryMmap::from_regions(regions)
             .map_err(|e| VhostUserError::ReqHandlerError(io::Error::other(e)))?;
+        self.enable_logging(&mem)?;
 
         // Updating the inner GuestMemory object here will cause all our vrings to
         // see the new one the next time they call to `atomic_mem.memory()`.
@@ -649,6 +679,7 @@ where
             .memory()
             .insert_region(guest_region)
             .map_err(|e| VhostUserError::ReqHandlerError(io::Error::other(e)))?;
+        self.enable_logging(&mem)?;
 
         self.atomic_mem.lock().unwrap().replace(mem);
 
@@ -797,6 +828,9 @@ where
         for (region, bitmap) in bitmaps {
             (*region).bitmap().replace(bitmap);
         }
+
+        // Remember the log: memory regions added later must be logged as well.
+        self.logmem = Some(logmem);
 
         Ok(())
     }
